@@ -111,8 +111,10 @@ __CPROVER_requires(__CPROVER_is_fresh(data, NEED(*datalength, TAIL)))
 __CPROVER_requires(__CPROVER_is_fresh(type, 1))
 __CPROVER_assigns(*datalength, *type, snmp_errno)
 ENSURES_WINDOW
+#ifndef WINDOW_ONLY   /* a caller-check target may use the contract without its exact clauses (a weaker, hence still verified, contract) */
 __CPROVER_ensures((RET != NULL) == sp_header_ok(data, OLD(*datalength)))
 __CPROVER_ensures(RET != NULL ==> (RET == data + sp_hdr(data) && *datalength == (int)sp_len_val(data + 1) && *type == data[0]))
+#endif
 __CPROVER_ensures(RET == NULL ==> *datalength == OLD(*datalength))
 #ifdef TWIN_HEADER
 __CPROVER_ensures(RET != NULL ==> (RET - data) + (long)*datalength < (long)OLD(*datalength))
@@ -128,9 +130,11 @@ __CPROVER_requires(__CPROVER_is_fresh(type, 1))
 __CPROVER_requires(__CPROVER_is_fresh(intp, sizeof(int)))
 __CPROVER_assigns(*datalength, *type, *intp, snmp_errno)
 ENSURES_WINDOW
+#ifndef WINDOW_ONLY
 __CPROVER_ensures((RET != NULL) == (intsize == (int)sizeof(int) && sp_tlv_ok(data, OLD(*datalength), 4)))
 __CPROVER_ensures(RET != NULL ==> (RET == data + sp_hdr(data) + sp_len_val(data + 1) &&
                                    *datalength == OLD(*datalength) - (int)(RET - data) && *type == data[0]))
+#endif
 __CPROVER_ensures(RET == NULL ==> *datalength == OLD(*datalength))
 #ifdef EXACT_VALUE
 /* a zero-length INTEGER decodes to 0 or -1 depending on the byte AFTER the TLV (the TAIL byte): recorded, not "fixed" here */
@@ -215,11 +219,40 @@ __CPROVER_ensures(RET == NULL ==> (-1 <= *objidlength && *objidlength <= OLD(*ob
 __CPROVER_ensures(RET != NULL ==> (sp_tlv_ok(data, OLD(*datalength), (unsigned long)VMAX) && *type == data[0] &&
                                    RET - data <= sp_hdr(data) + (long)sp_len_val(data + 1) &&
                                    *datalength == OLD(*datalength) - (int)(sp_hdr(data) + (long)sp_len_val(data + 1))))
-__CPROVER_ensures(RET != NULL ==> (objid[0] <= 6 && objid[1] <= 39) || (objid[0] == 1 && objid[1] == 3))
+__CPROVER_ensures(RET != NULL ==> (objid[1] <= 39 || (objid[0] == 1 && objid[1] == 3)))
 #ifdef TWIN_OBJID
 __CPROVER_ensures(RET != NULL ==> *objidlength < OLD(*objidlength))
 #endif
 ;
+
+
+/* ======================= caller-side check: lib/snmplib/snmp_pdu.c snmp_pdu_decode =======================
+ * The real caller is enforced against the same window contract with the five parsers REPLACED by the contracts above,
+ * so every call site must establish the callee's precondition (in particular the slack).  CALLER_SLACK is the number of
+ * readable bytes the caller of snmp_pdu_decode guarantees beyond *Length:
+ *   CALLER_SLACK = 6  (target pdu_decode_slack6): every callee precondition is discharged -- 6 bytes of slack suffice;
+ *   CALLER_SLACK = 1  (target pdu_decode_slack1): what snmpHandleUdp provides -- the callee preconditions FAIL (finding F5). */
+#ifdef T_PDU_DECODE
+#include <netinet/in.h>
+#include "snmp_vars.h"
+#include "snmp_pdu.h"
+#ifndef CALLER_SLACK
+#define CALLER_SLACK 6
+#endif
+u_char *snmp_pdu_decode(u_char *Packet, int *Length, struct snmp_pdu *PDU)
+__CPROVER_requires(__CPROVER_is_fresh(Length, sizeof(int)))
+__CPROVER_requires(0 <= *Length && *Length <= VMAX)
+__CPROVER_requires(__CPROVER_is_fresh(Packet, (size_t)*Length + CALLER_SLACK))
+__CPROVER_requires(__CPROVER_is_fresh(PDU, sizeof(struct snmp_pdu)))
+__CPROVER_assigns(*Length, PDU->command, PDU->reqid, PDU->errstat, PDU->errindex, PDU->non_repeaters, PDU->max_repetitions, snmp_errno)
+__CPROVER_ensures(0 <= *Length && *Length <= OLD(*Length))
+__CPROVER_ensures(RET != NULL ==> (__CPROVER_same_object(RET, Packet) && RET - Packet >= 0 &&
+                                   (RET - Packet) + (long)*Length <= (long)OLD(*Length)))
+#ifdef TWIN_PDU
+__CPROVER_ensures(RET != NULL ==> (RET - Packet) + (long)*Length < (long)OLD(*Length))
+#endif
+;
+#endif
 
 #ifndef CV_NATIVE
 /* ======================= harnesses (dfcc: arguments are bound by the is_fresh clauses above) ======================= */
@@ -291,6 +324,17 @@ void h_parse_objid(void)
 #ifdef REACH
     __CPROVER_assert(!(r != NULL), "reach: object identifier accepted");
     __CPROVER_assert(!(r == NULL), "reach: object identifier rejected");
+#endif
+}
+#endif
+#ifdef T_PDU_DECODE
+void h_pdu_decode(void)
+{
+    u_char *Packet; int *Length; struct snmp_pdu *PDU;
+    u_char *r = snmp_pdu_decode(Packet, Length, PDU);
+#ifdef REACH
+    __CPROVER_assert(!(r != NULL), "reach: PDU header and its three integers accepted");
+    __CPROVER_assert(!(r == NULL), "reach: PDU rejected");
 #endif
 }
 #endif
